@@ -1,8 +1,8 @@
 (* C12 — upstream faults and hostile input yield a clean error or close.
    Nothing but statements, `exact`, Print Assumptions (+ examples). *)
-From Coq Require Import List Bool Arith NArith.
+From Coq Require Import List Bool Arith NArith ZArith.
 From FwdLib Require Import Bytes.
-From G12 Require Import Tables Expected Errors Exchange Framing Check ErrorsProofs ExchangeProofs FramingProofs Indexing Dial Obligations.
+From G12 Require Import Tables Expected Errors Exchange Framing Check ErrorsProofs ExchangeProofs FramingProofs Reject Indexing Dial Obligations.
 Import ListNotations.
 Local Open Scope N_scope.
 
@@ -165,6 +165,42 @@ Proof.
         (conj ix_label_arity (conj ob_ta_all_others_two_valued (conj ob_index_sites ob_type_assert_sites))))))).
 Qed.
 Print Assumptions T12_index_obligations.
+
+(* A CONNECT rejected by the upstream proxy, at byte level (shape flags from the source of this run): whatever the
+   upstream's status (not 1xx/204/304), reason, other header fields, announced Content-Length cl, and whatever happens to
+   the body of its rejection — sent whole, connection ended early, or the upstream STALLS with its connection open —
+   the proxy answers, and the client parses a complete, well-formed response with the upstream's status whose body is the
+   whole body the upstream sent (only if cl > 0) or empty, announced with its true length, nothing after it. *)
+Theorem T12_rejected_connect_relay_wellformed : forall cl rd sl others mi st eof,
+  (forall bs, rd = RdAll bs -> N.of_nat (length bs) < 10 ^ 18) ->
+  line_ok sl = true -> parse_status_line sl = Some (1, mi, st) -> 100 <= st -> forallb hdr_ok others = true ->
+  (st / 100 =? 1) || (st =? 204) || (st =? 304) = false ->
+  values_of (b "transfer-encoding") (map kv_of others) = [] ->
+  values_of (b "content-length") (map kv_of others) = [] ->
+  exists body, reject_body reject_reads_body_only_when_length_positive reject_body_read_is_bounded cl rd = Some body /\
+    (body = [] \/ (rd = RdAll body /\ (0 < cl)%Z)) /\
+    let r := client_parse (reject_wire sl others body) eof false in
+    pv r = Complete /\ pstatus r = st /\ pbody r = body /\ prest r = [] /\ pframing r = 1.
+Proof.
+  rewrite ob_reject_reads_body_only_when_length_positive, ob_reject_body_read_is_bounded. exact rejected_connect_relay.
+Qed.
+Print Assumptions T12_rejected_connect_relay_wellformed.
+(* ... kept visible: with an unbounded read a stalling upstream gets no answer at all for the client (the shape before
+   the repair; replayed on the implementation: status:rt-upstream-rejects-connect-403-short-body-keeps-open), and so does
+   reading a body without framing (ContentLength != 0). *)
+Theorem T12_rejected_connect_relay_refuted_for_other_shapes :
+  reject_body true false 100 RdStall = None /\ reject_body false false (-1) RdStall = None.
+Proof. exact (conj reject_unbounded_read_never_answers reject_unframed_body_read_never_answers). Qed.
+Print Assumptions T12_rejected_connect_relay_refuted_for_other_shapes.
+(* non-vacuity: the rejection the cut sweep scripts *)
+Example T12_example_rejected_connect :
+  let sl := b "HTTP/1.1 403 Forbidden" in
+  let others := [b "Content-Type: text/plain"; b "X-Upstream: vf"] in
+  line_ok sl = true /\ parse_status_line sl = Some (1, 1, 403) /\ forallb hdr_ok others = true /\
+  values_of (b "transfer-encoding") (map kv_of others) = [] /\ values_of (b "content-length") (map kv_of others) = [] /\
+  pv (client_parse (reject_wire sl others (b "go away")) false false) = Complete /\
+  pbody (client_parse (reject_wire sl others []) false false) = [].
+Proof. vm_compute. repeat split; reflexivity. Qed.
 
 (* The dialer's retry loop (shape flags from the source of this run): whatever the outcomes of the attempts, whatever
    the configured number of attempts, and whether or not the caller's context ended while an attempt was pending,
